@@ -31,6 +31,11 @@ CHECKS = {
         technique="TLA+ reference codec (Resp.tla: Enc + total Dec over bytes); TLC proves the round-trip/prefix theorems on all small value trees (RespMC) and judges every recorded observation of the real encoder/decoder, incl. all single-point substitutions and truncations of small encodings (RespTrace)",
         text="The round-trip and 'a proper prefix never decodes' theorems are model-checked on the reference for all small value trees; the real codec is bound to the reference by trace validation of observations: encodings (integers across the pre-rendered table boundaries), decoded values and decoder positions for streams with keep-alive newlines and inline lines through fragmenting readers and small bufio sizes, and exhaustive single-point corruption / truncation of small encodings, each judged by TLC.",
         note="Inputs the reference classifies as unspecified (sign-prefixed or zero-padded numbers, newline at an element position inside an array) are only compared up to that point; lengths >= 10^7 are not fed to the real decoder (it would allocate them)."),
+    "C11": dict(
+        level="fault_enumeration", design="DESIGN.md 4/C11",
+        technique="TLA+ reference CRC-64 (Crc.tla, bit-serial over 16-bit limbs, ASSUME-checked) and verdict table; TLC model-checks chunking independence (CrcMC) and judges every recorded observation: all CRC copies under random chunkings and exhaustive per-artefact fault enumeration (every byte position, truncations, forged-valid trailers) through the three real verifiers (CrcTrace)",
+        text="For the digest the reference is evaluated by TLC on every table row (all 256 one-byte messages) of every CRC copy and on random messages with the register compared after every write; for detection, each generated RDB file / DUMP payload is corrupted at every byte position and truncated at every length and the three real verifiers' answers are compared with the verdict table by TLC.",
+        note="Single-byte substitutions and truncations only (multi-byte forgeries beyond version-above-with-valid-CRC are out of scope); artefacts come from the harness's independent RDB writer and from the tool's own parser/encoder."),
 }
 
 NOT_YET = "check not built yet in this session (work in progress; see DESIGN.md section 7 for the order)"
